@@ -266,6 +266,14 @@ class Engine(
                     # slice that might exist, and save those for the new outer
                     # query, since putting those in a subquery would destroy
                     # the ordering.
+                    if not select.sort.columns_required <= select.columns:
+                        # The Sort needs columns this Select's own Projection
+                        # drops, so it cannot move to the outer query.
+                        if not select.has_slice:
+                            raise RelationalAlgebraError(
+                                f"Applying {operation} to relation {select} will not preserve row order."
+                            )
+                        return Select.apply_skip(select, projection=operation)
                     subquery = select.reapply_skip(sort=None, slice=None)
                     return Select.apply_skip(
                         subquery,
@@ -277,6 +285,19 @@ class Engine(
                     # No Deduplication, so we can just add the Projection to
                     # the existing Select and reapply it.
                     match select.skip_to:
+                        case BinaryOperationRelation(
+                            operation=Chain()
+                        ) if not select.sort.columns_required <= operation.columns:
+                            # The Sort needs columns the Projection drops, so
+                            # the Projection cannot be pushed into the
+                            # operands; sort and project a subquery instead.
+                            subquery = select.reapply_skip(sort=None, slice=None)
+                            return Select.apply_skip(
+                                subquery,
+                                projection=operation,
+                                sort=select.sort,
+                                slice=select.slice,
+                            )
                         case BinaryOperationRelation(operation=Chain() as chain, lhs=lhs, rhs=rhs):
                             # ... unless the skip_to relation is a Chain; we
                             # want to move the Projection inside the Chain, to
